@@ -12,3 +12,6 @@ import QlibcModel.Props.C01
 #print axioms Qlibc.Props.C01.remove_refines
 #print axioms Qlibc.Props.C01.other_keys_untouched
 #print axioms Qlibc.Props.C01.history_refines
+#print axioms Qlibc.Props.C01.putSpec_replaceAlways
+#print axioms Qlibc.Props.C01.get_after_put
+#print axioms Qlibc.Props.C01.history_refines_exact
